@@ -69,7 +69,7 @@ CLAIMS = {
         text="Bounded symbolic verification of the real query methods (get_first_neighbor, get_first_and_second_neighbor, "
              "get_nodes_on_shortest_path, get_nodes_on_path_with_hops and the mixin helpers) on both store flavours against the exact "
              "sets of the statement computed from the node/edge lists: every store with <= 3 nodes, all start/end nodes, relations, "
-             "classes, hop lists. One genuine defect repaired (shortest path with a relation), one recorded as known finding KF-C06-1 "
+             "classes, hop lists of 0..2 hops (equal hops, end nodes, any order). One genuine defect repaired (shortest path with a relation), one recorded as known finding KF-C06-1 "
              "(second relation ignored; the repository's own test asserts the defective result).",
         note=BOUNDED_NOTE + "Path algorithms are networkx's own, run on the concrete shape.",
         technique="contracts on the real methods checked by bounded symbolic execution (pyvc over the bounded graph model), z3; "
@@ -163,7 +163,9 @@ CLAIMS = {
              "element, property and connection is unchanged; the handle the operation went through lists the same interfaces as a "
              "freshly looked-up handle. Topology shapes: plain, bridged, with a GPU, with connected sub-interfaces on the removed "
              "card, with a direct port-to-port link to another node, a connected port that also has a sub-interface, a service with a "
-             "declared site; every scenario on both in-memory back ends (four defects repaired).",
+             "declared site; every scenario on both in-memory back ends; plus a substrate switch whose service loses a port through "
+             "remove_interface, and two same-named sub-interfaces of one node connected to one service of which one is disconnected "
+             "(five defects repaired).",
         note=TOPO_NOTE,
         technique="exact-deletion and frame postconditions checked by bounded symbolic execution of the real API (pyvc), z3; replay",
         design_ref="DESIGN.md section 3 C08"),
@@ -187,7 +189,8 @@ CLAIMS = {
              "permitted interface types); a valid single-site service carries the inferred site; L2PTP refuses a shared port at "
              "connect time. Names are chosen so that derived port names of different nodes coincide; the same topology object is "
              "validated again after a node moved; a port-mirror service validates for every direction; a declared site survives "
-             "detaching and re-attaching the only interface. One defect repaired (declared site compared with itself).",
+             "detaching and re-attaching the only interface; the same verdicts are demanded when the slice object is an instance of "
+             "a class derived from ExperimentTopology (L2STS, 0..3 interfaces). One defect repaired (declared site compared with itself).",
         note=TOPO_NOTE + "P4 / OVS services and the node-type constraint rows are pinned but not exercised by a scenario; PortMirror by one scenario "
              "per direction; "
              "num_instances is NO_LIMIT for every row, so the per-site instance rule is vacuous in the pinned table.",
